@@ -175,6 +175,21 @@ def _flags(fired: Any) -> int:
     return f
 
 
+RUNAWAY = 4 * LOOP_BUDGET
+
+
+def _runaway(s: Any, c: int) -> Optional[List[Any]]:
+    """A generated history never makes a correct implementation loop more than LOOP_BUDGET times in one tick.
+    If an implementation's own target has been left so far behind that the next tick would spin for longer than
+    RUNAWAY iterations, stop driving it (the judge reports it) instead of hanging the harness."""
+    if not s.enabled:
+        return None
+    for name, p, n in (("MTI", s.mti_period, s.next_mti), ("STI", s.sti_period, s.next_sti)):
+        if p > 0 and c >= n and (c - n) // p > RUNAWAY:
+            return [name, c, n]
+    return None
+
+
 def run_py_sched(case: Dict[str, Any]) -> List[Any]:
     from pce500.scheduler import TimerScheduler
 
@@ -184,6 +199,11 @@ def run_py_sched(case: Dict[str, Any]) -> List[Any]:
     for op in case["ops"]:
         verb = op[0]
         arg = int(op[1]) if len(op) > 1 else 0
+        if verb in ("t", "b"):
+            ra = _runaway(s, arg if verb == "t" else last + 1)
+            if ra:
+                obs.append({"runaway": ra})
+                return obs
         if verb == "t":
             last = arg
             f = _flags(s.advance(arg))
@@ -271,6 +291,11 @@ def run_py_emu(case: Dict[str, Any]) -> List[Any]:
     for op in case["ops"]:
         verb = op[0]
         arg = int(op[1]) if len(op) > 1 else 0
+        if verb in ("t", "b"):
+            ra = _runaway(emu._scheduler, arg if verb == "t" else last + 1)
+            if ra:
+                obs.append({"runaway": ra})
+                return obs
         if verb == "t":
             last = arg
             emu.cycle_count = arg
@@ -327,7 +352,8 @@ def run_rust(cases: List[Dict[str, Any]]) -> List[Any]:
     B = 64
     for i in range(0, len(cases), B):
         resp = rust.call({"cmd": "c13.batch", "cases": [
-            {"mti": c["mti"], "sti": c["sti"], "enabled": c["enabled"], "isr0": c.get("isr0", 0), "ops": c["ops"]}
+            {"mti": c["mti"], "sti": c["sti"], "enabled": c["enabled"], "isr0": c.get("isr0", 0), "ops": c["ops"],
+             "runaway": RUNAWAY}
             for c in cases[i:i + B]]})
         if not resp.get("ok"):
             raise HarnessError(f"c13.batch failed: {str(resp)[:300]}")
@@ -339,9 +365,13 @@ def run_rust(cases: List[Dict[str, Any]]) -> List[Any]:
 # Verdicts
 # --------------------------------------------------------------------------------------------------
 
-def _ctx_name(after_reset: bool, after_snap: bool, hi: bool) -> str:
-    s = "after-snapshot" if after_snap else ("after-reset" if after_reset else "from-start")
-    return s + (" targets>i32" if hi else "")
+def _ctx_name(after_reset: bool, after_snap: bool, hi: bool, full: bool = False) -> str:
+    """Context part of `where`.  Tick-level verdicts only say whether a restore preceded them; the reset/restore
+    verdicts (full=True) also say whether a target lies beyond the i32 range, which is causal there."""
+    s = " after-snapshot" if after_snap else ""
+    if full and hi:
+        s += " targets>i32"
+    return s
 
 
 def _gap_class(c: int, prev: int, p: int) -> str:
@@ -371,7 +401,10 @@ class _Judge:
             return
         self.dead[key] = True
         self.first_fail_op[key] = opi
-        self.out.append(Violation(subcheck, f"{self.impl}:{timer} {ctx}", symptom, self.case,
+        if key == "CALLS":   # the emulator is out of step with the history: nothing after this is meaningful
+            for k in self.dead:
+                self.dead[k] = True
+        self.out.append(Violation(subcheck, f"{self.impl}:{timer}{ctx}", symptom, self.case,
                                   f"op#{opi} {self.case['ops'][opi]!r} (mti={self.case['mti']} sti={self.case['sti']} "
                                   f"enabled={self.case['enabled']}): {detail}"))
 
@@ -387,7 +420,8 @@ def judge(case: Dict[str, Any], ref: List[Any], impl: str, obs: Any, has_isr: bo
     isr = int(case.get("isr0", 0)) & 0xFF
     after_reset = after_snap = False
     prev_c = 0
-    if len(obs) != len(case["ops"]):
+    truncated = bool(obs) and isinstance(obs[-1], dict) and "runaway" in obs[-1]
+    if len(obs) != len(case["ops"]) and not truncated:
         J.out.append(Violation("crash", impl, "observation count differs from op count", case,
                                f"{len(obs)} observations for {len(case['ops'])} ops"))
         return J.out, {}
@@ -451,6 +485,12 @@ def judge(case: Dict[str, Any], ref: List[Any], impl: str, obs: Any, has_isr: bo
 
     for opi, (op, e, o) in enumerate(zip(case["ops"], ref, obs)):
         verb = op[0]
+        if isinstance(o, dict) and "runaway" in o:
+            t, c, n = o["runaway"]
+            J.fail(t, opi, "next-target", t, _ctx_name(after_reset, after_snap, False),
+                   "next target left far behind the cycle counter (the tick would spin)",
+                   f"before the tick at {c}: next target {n}; execution of this history stopped here")
+            break
         if verb == "t":
             if impl == "py-emu":
                 calls = o[4]
@@ -516,14 +556,14 @@ def judge(case: Dict[str, Any], ref: List[Any], impl: str, obs: Any, has_isr: bo
         elif verb == "r":
             after_reset, after_snap = True, False
             prev_c = int(op[1])
-            ctx = _ctx_name(True, False, e["hi"])
+            ctx = _ctx_name(True, False, e["hi"], True)
             for ti, t in enumerate(TIMERS):
                 if active[t] and o[ti] != (e["nm"], e["ns"])[ti]:
                     J.fail(t, opi, "reset", t, ctx, "reset(cycle_base) did not set the target to cycle_base + period",
                            f"reset({op[1]}): next target {o[ti]}, expected {(e['nm'], e['ns'])[ti]}")
         elif verb == "s":
             after_snap = True
-            ctx = _ctx_name(after_reset, True, e["hi"])
+            ctx = _ctx_name(after_reset, True, e["hi"], True)
             for ti, t in enumerate(TIMERS):
                 if active[t] and o[ti] != (e["nm"], e["ns"])[ti]:
                     J.fail(t, opi, "restore", t, ctx, "snapshot/restore changed the next target",
@@ -541,7 +581,7 @@ def differential(case: Dict[str, Any], ref: List[Any], py: List[Any], rs: Any,
     """Python scheduler vs Rust timer: identical firing flags at every tick (stated in the property).  Emitted
     only where neither side already failed the reference at or before that op (that failure is the finding)."""
     out: List[Violation] = []
-    if not isinstance(rs, list) or len(rs) != len(py):
+    if not isinstance(rs, list) or not isinstance(py, list):
         return out
     after_reset = after_snap = False
     done = [False, False]
@@ -553,6 +593,8 @@ def differential(case: Dict[str, Any], ref: List[Any], py: List[Any], rs: Any,
             after_snap = True
         if verb not in ("t", "b"):
             continue
+        if isinstance(a, dict) or isinstance(b, dict):
+            break
         pairs = [(e, a, b)] if verb == "t" else list(zip(e, a, b))
         for x, pa, pb in pairs:
             for ti, t in enumerate(TIMERS):
@@ -565,7 +607,7 @@ def differential(case: Dict[str, Any], ref: List[Any], py: List[Any], rs: Any,
                 if fa != fb:
                     done[ti] = True
                     out.append(Violation(
-                        "py-vs-rust", f"{t} {_ctx_name(after_reset, after_snap, x['hi'])}",
+                        "py-vs-rust", f"{t}{_ctx_name(after_reset, after_snap, x['hi'])}",
                         "python fired, rust did not" if fa else "rust fired, python did not", case,
                         f"op#{opi} tick at {x['c']}: python flags={pa[0]:02b} rust flags={pb[0]:02b}"))
     return out
@@ -597,7 +639,14 @@ def evaluate(cases: List[Dict[str, Any]], with_emu: bool = True) -> List[Tuple[L
             except Exception as exc:  # noqa: BLE001
                 em = {"error": f"{type(exc).__name__}: {exc}"}
             v3, _ = judge(case, ref, "py-emu", em, True)
-            vs += v3
+            # the emulator drives the very same TimerScheduler: a scheduler-level failure already reported for
+            # py-sched on this timer is the same root cause, not a second finding
+            sched_failed = set(f1)
+            for v in v3:
+                t = v.where.split(":", 1)[1].split(" ")[0] if ":" in v.where else ""
+                if v.subcheck in ("cadence", "next-target", "never-fires", "reset", "restore") and t in sched_failed:
+                    continue
+                vs.append(v)
         res.append((vs, facts))
     return res
 
